@@ -1,6 +1,7 @@
 package c02
 
 import (
+	"time"
 	"fmt"
 	"strings"
 	"sync"
@@ -45,11 +46,23 @@ func equivalenceOption(name string) []resource.Option {
 
 var equivalences = []string{"", "", "nodup", "coarse"}
 
+// stoppedClocks: set per case by the forced-interleaving test; read by newTarget.
+var stoppedClocks atomic.Bool
+
+type stoppedClock struct{}
+
+func (stoppedClock) Now() time.Time { return time.Unix(1700000000, 0) }
+
 func newTarget(isValue bool, initial map[string]int32, equivalence ...string) *target {
 	tg := &target{isValue: isValue, model: &rlib.Store{IsValue: isValue, Proto: &testproto.ForeignMessage{}, Items: map[string]*rlib.Entry{}}}
 	var eq []resource.Option
 	if len(equivalence) > 0 {
 		eq = equivalenceOption(equivalence[0])
+	}
+	if stoppedClocks.Load() {
+		// a simulated clock that is not running: every write happens "at the same time"; whether a write interfered with
+		// another is a matter of values, not of time stamps
+		eq = append(eq, resource.WithClock(stoppedClock{}))
 	}
 	if len(equivalence) > 1 && equivalence[1] == "fold" && !isValue {
 		// a case-insensitive collection: callers say "X" or "x" and mean the same item
@@ -123,6 +136,9 @@ func drawOp(t *rapid.T, label string, isValue bool, fold ...bool) rlib.Op {
 	if op.Kind == rlib.OpDelete {
 		op.Val = nil
 		op.AllowMissing = rapid.IntRange(0, 3).Draw(t, label+".am") == 0
+	} else if rapid.IntRange(0, 4).Draw(t, label+".backdated") == 2 {
+		// late or replayed data: the writer says the change happened long ago (or gives no time worth the name)
+		op.WriteTick = rapid.SampledFrom([]int64{-5, 1, 2, rlib.ZeroTimeTick}).Draw(t, label+".tick")
 	}
 	switch rapid.IntRange(0, 7).Draw(t, label+".pre") {
 	case 0:
@@ -183,7 +199,9 @@ func TestForcedInterleavings(t *testing.T) {
 		if !isValue && rapid.IntRange(0, 2).Draw(t, "foldIDs") == 1 {
 			foldIDs = "fold"
 		}
+		stoppedClocks.Store(rapid.IntRange(0, 2).Draw(t, "stoppedClock") == 1)
 		tg := newTarget(isValue, initial, equiv, foldIDs)
+		stoppedClocks.Store(false)
 		depth := rapid.IntRange(1, 3).Draw(t, "depth")
 		ops := make([]rlib.Op, depth+1)
 		ops[0] = drawOp(t, "op0", isValue, tg.fold)
